@@ -108,7 +108,7 @@ def run(ctx):
             for mode, q in (("Creamer", "PPII_creamer"), ("KALLENBACH", "PPII_kallenbach"), ("Hilser", "PPII_hilser")):
                 alt = common.call(o.get_PPII_propensity, mode)
                 ref = common.call(o.get_PPII_propensity, mode.lower())
-                if repr(alt) != repr(ref):
+                if alt[0] != ref[0] or (alt[0] == "ok" and not common.close(alt[1], Fraction(float(ref[1])), tol=Fraction(1, 10**12))):
                     ctx.violation("param-" + q, {"seq": var, "mode": mode}, expected=ref, actual=alt)
             outs = all_replies(o)
             ctx.evaluations += 1
